@@ -1995,7 +1995,9 @@ DLLEXPORT int tj3GetICCProfile(tjhandle handle, unsigned char **iccBuf,
     return 0;
   *iccBuf = this->tempICCBuf;
   this->tempICCBuf = NULL;
-  this->tempICCSize = 0;
+  /* tempICCSize is deliberately retained.  The source image still contains the
+     ICC profile, which tj3Transform() may copy, so tj3TransformBufSize() needs
+     to know its size. */
 
 bailout:
   return retval;
